@@ -225,16 +225,22 @@ def init(ctx):
         ef = None
     if ef is not None:
         I = A.Interp(facts)
+        # all 8 R/W/X combinations, alone and with every other p_flags bit (OS / processor specific bits are legal and
+        # must not leak into the permission mask): 8 x (1 + 29 single bits + all of them)
+        extras = [0] + [1 << i for i in range(3, 32)] + [0xFFFFFFF8]
         for fl in range(8):
-            outs = list(I.run(ef, [A.INT(fl, 32)], A.Path()))
-            rets = [o for o in outs if o.kind == "return"]
             want = ((fl >> 2) & 1) | (fl & 2) | ((fl & 1) << 2)   # PF_R=4->1, PF_W=2->2, PF_X=1->4
+            bad = None
+            for ex in extras:
+                outs = list(I.run(ef, [A.INT(fl | ex, 32)], A.Path()))
+                rets = [o for o in outs if o.kind == "return"]
+                if not (len(rets) == 1 and len(outs) == 1 and A.is_int(rets[0].value) and rets[0].value[1] == want):
+                    bad = bad or "p_flags=%#x maps to %s, expected %d" % (fl | ex, [A.show(o.value) if o.value else o.kind for o in outs][:3], want)
             inst = "elf_flags=%d" % fl
-            if len(rets) == 1 and A.is_int(rets[0].value) and rets[0].value[1] == want:
-                ck.ok("C09.init", inst)
+            if bad is None:
+                ck.ok("C09.init", inst, len(extras))
             else:
-                ck.violation("C09.init", inst, "maps to %s, expected %d" % ([A.show(o.value) for o in rets], want),
-                             what="ELF segment flags translated to the wrong permission mask")
+                ck.violation("C09.init", inst, bad, what="ELF segment flags translated to the wrong permission mask")
     # constructor
     new = [k for k in facts.by_name("new") if facts.bodies[k].get("impl_self") == "axecutor::Axecutor"]
     if len(new) != 1:
